@@ -304,12 +304,7 @@ func (r *AuthnRequest) Redirect(relayState string, sp *ServiceProvider) (*url.UR
 	}
 
 	// We can't depend on Query().set() as order matters for signing
-	query := rv.RawQuery
-	if len(query) > 0 {
-		query += "&SAMLRequest=" + url.QueryEscape(requestStr.String())
-	} else {
-		query += "SAMLRequest=" + url.QueryEscape(requestStr.String())
-	}
+	query := "SAMLRequest=" + url.QueryEscape(requestStr.String())
 
 	if relayState != "" {
 		query += "&RelayState=" + url.QueryEscape(relayState)
@@ -329,6 +324,11 @@ func (r *AuthnRequest) Redirect(relayState string, sp *ServiceProvider) (*url.UR
 		query += "&Signature=" + url.QueryEscape(base64.StdEncoding.EncodeToString(sig))
 	}
 
+	// The signature covers only the SAML parameters; parameters that are
+	// already part of the IdP endpoint are kept in front of them.
+	if len(rv.RawQuery) > 0 {
+		query = rv.RawQuery + "&" + query
+	}
 	rv.RawQuery = query
 
 	return rv, nil
